@@ -5,10 +5,13 @@ import SuppModel.Proj.Lemmas1
 namespace SuppModel.Proj
 
 /-- `E` has the same files as `D` wherever the state has looked -/
-def AgreeOn (st : St) (D E : Disk) : Prop := ∀ m, foot st m → get E m = get D m
+structure AgreeOn (st : St) (D E : Disk) : Prop where
+  files : ∀ m, foot st m → get E m = get D m
+  /-- and every directory in `_norm_cache` has the same package path on both -/
+  parts : ∀ root ps, Norm.lookup st.norm root = some ps → pParts E root = pParts D root
 
 theorem AgreeOn.mono {st st' : St} {D E : Disk} (h : AgreeOn st' D E) (hm : Mono st st') : AgreeOn st D E :=
-  fun m hf => h m (hm m hf)
+  ⟨fun m hf => h.files m (hm.foot m hf), fun r ps hl => h.parts r ps (hm.norm r ps hl)⟩
 
 /-- nothing is evicted from the module cache -/
 def Keeps (st st' : St) : Prop := ∀ k, (get st.mcache k).isSome = true → (get st'.mcache k).isSome = true
@@ -45,36 +48,38 @@ structure Correct (E : Disk) (st : St) : Prop where
   /-- a module object held by a memo is still the one in the module cache -/
   modIn : ∀ m c key k, get st.mcache m = some c → findRef key c.refs = some (some (.module k)) →
     (get st.mcache k).isSome = true
-  /-- only names of absolute imports in cached tables and behind memos (relative ones are outside the proof) -/
-  tabAbs : ∀ m c t, get st.mcache m = some c → c.table = some t → ∀ e, e ∈ t → e.isAbs = true
-  refAbs : ∀ m c key k e, get st.mcache m = some c → findRef key c.refs = some (some (.entry k e)) →
-    e.isAbs = true
-  /-- `changed` is `!=`, as in the code -/
+  /-- memos of relative imports: the name is normalised from the directory of the module's own file -/
+  refsR : ∀ m c x ln up k mn r, get st.mcache m = some c → findRef (.rimp x ln up k mn) c.refs = some r →
+    Ev (fun n => pResolveR E n (dirOf (some m)) up k mn) r
+  /-- `_norm_cache` holds the package path of each directory it has an entry for -/
+  norm : ∀ root ps, Norm.lookup st.norm root = some ps → ps = pParts E root
+  /-- `changed` is `!=` and `norm_package` caches empty results, as in the code -/
   mode : st.lt = false
+  mode2 : st.legacyNorm = false
 
 /-- a state with nothing in its caches is correct for every disk -/
 theorem correct_of_nil (E : Disk) (st : St) (h1 : st.mcache = []) (h2 : st.missing = []) (h3 : st.ctx = [])
-    (h4 : st.lt = false) : Correct E st :=
-  ⟨by simp [h1], by simp [h2], by simp [h3], by simp [h1], by simp [h1], by simp [h1], by simp [h1], by simp [h1],
-   h4⟩
+    (h4 : st.lt = false) (h5 : st.norm = []) (h6 : st.legacyNorm = false) : Correct E st :=
+  ⟨by simp [h1], by simp [h2], by simp [h3], by simp [h1], by simp [h1], by simp [h1], by simp [h1],
+   by simp [h5, Norm.lookup], h4, h6⟩
 
-theorem correct_empty (E : Disk) : Correct E St.empty := correct_of_nil E _ rfl rfl rfl rfl
+theorem correct_empty (E : Disk) : Correct E St.empty := correct_of_nil E _ rfl rfl rfl rfl rfl rfl
 
 theorem pTable_none {E : Disk} {m : Mod} (h : get E m = none) (n : Nat) : pTable E n m = .ok none := by
   cases n <;> simp [pTable, h]
 
 theorem correct_updCached {E : Disk} {st : St} {m : Mod} {g : Cached → Cached} (hc : Correct E st)
     (hg : ∀ c, get st.mcache m = some c → (g c).mtime = c.mtime ∧
-      (∀ t, (g c).table = some t → c.table = some t ∨
-        (Ev (fun n => pTable E n m) (some t) ∧ ∀ e, e ∈ t → e.isAbs = true)) ∧
+      (∀ t, (g c).table = some t → c.table = some t ∨ Ev (fun n => pTable E n m) (some t)) ∧
       (∀ x ln k mn r, findRef (.imp x ln k mn) (g c).refs = some r →
         findRef (.imp x ln k mn) c.refs = some r ∨ Ev (fun n => pResolve E n k mn) r) ∧
       (∀ key k, findRef key (g c).refs = some (some (.module k)) →
         findRef key c.refs = some (some (.module k)) ∨ (get st.mcache k).isSome = true) ∧
-      (∀ key k e, findRef key (g c).refs = some (some (.entry k e)) →
-        findRef key c.refs = some (some (.entry k e)) ∨ e.isAbs = true)) :
+      (∀ x ln up k mn r, findRef (.rimp x ln up k mn) (g c).refs = some r →
+        findRef (.rimp x ln up k mn) c.refs = some r ∨
+          Ev (fun n => pResolveR E n (dirOf (some m)) up k mn) r)) :
     Correct E (updCached st m g) := by
-  refine ⟨?_, hc.miss, ?_, ?_, ?_, ?_, ?_, ?_, hc.mode⟩
+  refine ⟨?_, hc.miss, ?_, ?_, ?_, ?_, ?_, hc.norm, hc.mode, hc.mode2⟩
   · intro k c hk
     simp only [updCached, get_map_upd] at hk
     by_cases hkm : k = m
@@ -105,7 +110,7 @@ theorem correct_updCached {E : Disk} {st : St} {m : Mod} {g : Cached → Cached}
         subst hk
         rcases (hg c0 hgk).2.1 t ht with h | h
         · exact hc.table k c0 t hgk h
-        · exact h.1
+        · exact h
     · simp only [hkm, if_false] at hk; exact hc.table k c t hk ht
   · intro k c x ln k' mn r hk hr
     simp only [updCached, get_map_upd] at hk
@@ -136,7 +141,7 @@ theorem correct_updCached {E : Disk} {st : St} {m : Mod} {g : Cached → Cached}
         · exact hc.modIn k c0 key k' hgk h
         · exact h
     · simp only [hkm, if_false] at hk; exact hc.modIn k c key k' hk hr
-  · intro k c t hk ht
+  · intro k c x ln up k' mn r hk hr
     simp only [updCached, get_map_upd] at hk
     by_cases hkm : k = m
     · subst hkm
@@ -146,31 +151,17 @@ theorem correct_updCached {E : Disk} {st : St} {m : Mod} {g : Cached → Cached}
       | some c0 =>
         rw [hgk] at hk; simp only [Option.map_some, Option.some.injEq] at hk
         subst hk
-        rcases (hg c0 hgk).2.1 t ht with h | h
-        · exact hc.tabAbs k c0 t hgk h
-        · exact h.2
-    · simp only [hkm, if_false] at hk; exact hc.tabAbs k c t hk ht
-  · intro k c key k' e hk hr
-    simp only [updCached, get_map_upd] at hk
-    by_cases hkm : k = m
-    · subst hkm
-      simp only [if_true] at hk
-      cases hgk : get st.mcache k with
-      | none => rw [hgk] at hk; cases hk
-      | some c0 =>
-        rw [hgk] at hk; simp only [Option.map_some, Option.some.injEq] at hk
-        subst hk
-        rcases (hg c0 hgk).2.2.2.2 key k' e hr with h | h
-        · exact hc.refAbs k c0 key k' e hgk h
+        rcases (hg c0 hgk).2.2.2.2 x ln up k' mn r hr with h | h
+        · exact hc.refsR k c0 x ln up k' mn r hgk h
         · exact h
-    · simp only [hkm, if_false] at hk; exact hc.refAbs k c key k' e hk hr
+    · simp only [hkm, if_false] at hk; exact hc.refsR k c x ln up k' mn r hk hr
 
 theorem load_correct {E D : Disk} {st : St} {m : Mod} {b : Bool} {st' : St} (hc : Correct E st)
     (hnone : get st.mcache m = none)
     (h : load D st m = (b, st')) (hag : AgreeOn st' D E) :
     Correct E st' ∧ Keeps st st' ∧ (b = true → ∃ c, get st'.mcache m = some c) ∧ (b = false → get E m = none) := by
   have hfoot : foot st' m := by have := load_foot D st m; rw [h] at this; exact this
-  have hE := hag m hfoot
+  have hE := hag.files m hfoot
   unfold load at h
   cases hd : get D m with
   | none =>
@@ -178,7 +169,8 @@ theorem load_correct {E D : Disk} {st : St} {m : Mod} {b : Bool} {st' : St} (hc 
     obtain ⟨hb, hst⟩ := h
     subst hb; subst hst
     rw [hd] at hE
-    refine ⟨⟨?_, ?_, ?_, ?_, ?_, ?_, ?_, ?_, by simpa using hc.mode⟩, by simp [Keeps], by simp, fun _ => hE⟩
+    refine ⟨⟨?_, ?_, ?_, ?_, ?_, ?_, ?_, ?_, by simpa using hc.mode, by simpa using hc.mode2⟩,
+      by simp [Keeps], by simp, fun _ => hE⟩
     · simpa using hc.valid
     · intro k hk
       rcases (mem_addMissing st m k).1 hk with rfl | hk'
@@ -188,8 +180,8 @@ theorem load_correct {E D : Disk} {st : St} {m : Mod} {b : Bool} {st' : St} (hc 
     · simpa using hc.table
     · simpa using hc.refs
     · simpa using hc.modIn
-    · simpa using hc.tabAbs
-    · simpa using hc.refAbs
+    · simpa using hc.refsR
+    · simpa using hc.norm
   | some f =>
     rw [hd] at h; simp only [Prod.mk.injEq] at h
     obtain ⟨hb, hst⟩ := h
@@ -201,7 +193,7 @@ theorem load_correct {E D : Disk} {st : St} {m : Mod} {b : Bool} {st' : St} (hc 
       by_cases hmk : m = k
       · simp [hmk]
       · simpa [hmk] using hk
-    refine ⟨⟨?_, hc.miss, ?_, ?_, ?_, ?_, ?_, ?_, hc.mode⟩, hkeep, fun _ => ⟨⟨f.mtime, none, []⟩, by simp [get_cons]⟩, by simp⟩
+    refine ⟨⟨?_, hc.miss, ?_, ?_, ?_, ?_, ?_, hc.norm, hc.mode, hc.mode2⟩, hkeep, fun _ => ⟨⟨f.mtime, none, []⟩, by simp [get_cons]⟩, by simp⟩
     · intro k c hk
       simp only [get_cons] at hk
       by_cases hmk : m = k
@@ -228,16 +220,11 @@ theorem load_correct {E D : Disk} {st : St} {m : Mod} {b : Bool} {st' : St} (hc 
       by_cases hmk : m = k
       · subst hmk; simp only [if_true, Option.some.injEq] at hk; subst hk; simp [findRef] at hr
       · simp only [hmk, if_false] at hk; exact hc.modIn k c key k' hk hr
-    · intro k c t hk ht
-      simp only [get_cons] at hk
-      by_cases hmk : m = k
-      · subst hmk; simp only [if_true, Option.some.injEq] at hk; subst hk; cases ht
-      · simp only [hmk, if_false] at hk; exact hc.tabAbs k c t hk ht
-    · intro k c key k' e hk hr
+    · intro k c x ln up k' mn r hk hr
       simp only [get_cons] at hk
       by_cases hmk : m = k
       · subst hmk; simp only [if_true, Option.some.injEq] at hk; subst hk; simp [findRef] at hr
-      · simp only [hmk, if_false] at hk; exact hc.refAbs k c key k' e hk hr
+      · simp only [hmk, if_false] at hk; exact hc.refsR k c x ln up k' mn r hk hr
 
 theorem getModule_foot {D : Disk} {st : St} {m : Mod} (hctx : ∀ k, k ∈ st.ctx → (get st.mcache k).isSome = true) :
     foot (getModule D st m).2 m := by
@@ -257,7 +244,7 @@ theorem getModule_correct {E D : Disk} {st : St} {m : Mod} {b : Bool} {st' : St}
     (h : getModule D st m = (b, st')) (hag : AgreeOn st' D E) :
     Correct E st' ∧ Keeps st st' ∧ (b = true → ∃ c, get st'.mcache m = some c) ∧ (b = false → get E m = none) := by
   have hfoot : foot st' m := by have := getModule_foot (D := D) (m := m) hc.ctx; rw [h] at this; exact this
-  have hE := hag m hfoot
+  have hE := hag.files m hfoot
   unfold getModule at h
   by_cases hctx : m ∈ st.ctx
   · simp only [hctx, if_true, Prod.mk.injEq] at h
@@ -280,7 +267,7 @@ theorem getModule_correct {E D : Disk} {st : St} {m : Mod} {b : Bool} {st' : St}
       simp only [Prod.mk.injEq] at h
       obtain ⟨hb, hst'⟩ := h
       subst hb; subst hst'
-      refine ⟨⟨hc.valid, hc.miss, ?_, hc.table, hc.refs, hc.modIn, hc.tabAbs, hc.refAbs, hc.mode⟩, fun _ h => h,
+      refine ⟨⟨hc.valid, hc.miss, ?_, hc.table, hc.refs, hc.modIn, hc.refsR, hc.norm, hc.mode, hc.mode2⟩, fun _ h => h,
         fun _ => ⟨c, hg⟩, by simp⟩
       intro k hk
       rcases List.mem_cons.1 hk with rfl | hk'
@@ -291,53 +278,99 @@ theorem getModule_correct {E D : Disk} {st : St} {m : Mod} {b : Bool} {st' : St}
 def ScopeOK (E D : Disk) (scope : St → Mod → Except Err (Option Table × St)) : Prop :=
   ∀ st k r st', Correct E st → (get st.mcache k).isSome = true → scope st k = .ok (r, st') →
     AgreeOn st' D E → Correct E st' ∧ Keeps st st' ∧
-      ∃ t, r = some t ∧ Ev (fun n => pTable E n k) (some t) ∧ ∀ e, e ∈ t → e.isAbs = true
+      ∃ t, r = some t ∧ Ev (fun n => pTable E n k) (some t)
 
-theorem abs_append {acc l : Table} (h1 : ∀ e, e ∈ acc → e.isAbs = true) (h2 : ∀ e, e ∈ l → e.isAbs = true) :
-    ∀ e, e ∈ acc ++ l → e.isAbs = true := by
-  intro e he
-  rcases List.mem_append.1 he with h | h
-  · exact h1 e h
-  · exact h2 e h
+theorem normRef_keeps (D : Disk) (st : St) (dir : Mod) (up : Nat) (m : Mod) :
+    Keeps st (normRef D st dir up m).2 := by
+  intro k hk
+  rw [(normRef_mcache D st dir up m).1]; exact hk
+
+theorem normRef_lt (D : Disk) (st : St) (dir : Mod) (up : Nat) (m : Mod) :
+    (normRef D st dir up m).2.lt = st.lt ∧ (normRef D st dir up m).2.legacyNorm = st.legacyNorm := by
+  unfold normRef; exact ⟨rfl, rfl⟩
+
+/-- `norm_package`: the cached or freshly computed package path is the one of disk `E` -/
+theorem normRef_correct {E D : Disk} {st : St} {dir : Mod} {up : Nat} {m : Mod} {r} {st' : St}
+    (hc : Correct E st) (h : normRef D st dir up m = (r, st')) (hag : AgreeOn st' D E) :
+    Correct E st' ∧ Keeps st st' ∧ r = pNorm E dir up m := by
+  have hk : Keeps st st' := by have := normRef_keeps D st dir up m; rw [h] at this; exact this
+  obtain ⟨hm1, hm2, hm3⟩ := normRef_mcache D st dir up m
+  obtain ⟨hl1, hl2⟩ := normRef_lt D st dir up m
+  rw [h] at hm1 hm2 hm3 hl1 hl2
+  dsimp only at hm1 hm2 hm3 hl1 hl2
+  have hcache : (!st.legacyNorm) = true := by simp [hc.mode2]
+  unfold normRef Norm.normPackage at h
+  rw [hcache] at h
+  dsimp only at h
+  have hroot : Norm.dropLastN (up + 1 - 1) dir = Norm.dropLastN up dir := by simp
+  rw [hroot] at h
+  cases hl : Norm.lookup st.norm (Norm.dropLastN up dir) with
+  | some ps =>
+    rw [hl] at h
+    simp only [Prod.mk.injEq] at h
+    obtain ⟨hr, hst⟩ := h
+    have hps := hc.norm _ _ hl
+    refine ⟨?_, hk, ?_⟩
+    · rw [← hst]; exact hc
+    · rw [← hr, hps]; rfl
+  | none =>
+    rw [hl] at h
+    simp only [Bool.not_true, Bool.and_false, Bool.false_eq_true, if_false, Prod.mk.injEq] at h
+    obtain ⟨hr, hst⟩ := h
+    have hnorm : st'.norm = (Norm.dropLastN up dir, pParts D (Norm.dropLastN up dir)) :: st.norm := by
+      rw [← hst]; rfl
+    have hED : pParts E (Norm.dropLastN up dir) = pParts D (Norm.dropLastN up dir) :=
+      hag.parts _ (pParts D (Norm.dropLastN up dir)) (by rw [hnorm, lookup_cons, if_pos rfl])
+    refine ⟨⟨?_, ?_, ?_, ?_, ?_, ?_, ?_, ?_, by rw [hl1]; exact hc.mode, by rw [hl2]; exact hc.mode2⟩, hk, ?_⟩
+    · rw [hm1]; exact hc.valid
+    · rw [hm2]; exact hc.miss
+    · rw [hm3, hm1]; exact hc.ctx
+    · rw [hm1]; exact hc.table
+    · rw [hm1]; exact hc.refs
+    · rw [hm1]; exact hc.modIn
+    · rw [hm1]; exact hc.refsR
+    · intro root ps hlk
+      rw [hnorm, lookup_cons] at hlk
+      by_cases hkr : Norm.dropLastN up dir = root
+      · rw [if_pos hkr] at hlk
+        simp only [Option.some.injEq] at hlk
+        rw [← hlk, ← hkr, hED]
+      · rw [if_neg hkr] at hlk; exact hc.norm root ps hlk
+    · rw [← hr]; unfold pNorm; rw [hED]; rfl
 
 theorem build_correct {E D : Disk} {dir : Mod} {scope : St → Mod → Except Err (Option Table × St)}
     (hgrow : GrowsE scope) (hs : ScopeOK E D scope) (P : Nat → Mod → Except Err (Option Table))
     (hP : ∀ k t, Ev (fun n => pTable E n k) t → Ev (fun n => P n k) t) :
     ∀ (src : Src) (st : St) (ln : Nat) (acc t : Table) (st' : St), Correct E st →
-      src.all Item.isAbs = true → (∀ e, e ∈ acc → e.isAbs = true) →
       build D dir scope st src ln acc = .ok (t, st') → AgreeOn st' D E →
-      Correct E st' ∧ Keeps st st' ∧ Ev (fun n => pBuild (P n) src ln acc) t ∧
-        ∀ e, e ∈ t → e.isAbs = true := by
+      Correct E st' ∧ Keeps st st' ∧ Ev (fun n => pBuild E dir (P n) src ln acc) t := by
   intro src
   induction src with
   | nil =>
-    intro st ln acc t st' hc _ hacc h _
+    intro st ln acc t st' hc h _
     simp only [build, Except.ok.injEq, Prod.mk.injEq] at h
     obtain ⟨h1, h2⟩ := h
     subst h1; subst h2
-    exact ⟨hc, Keeps.refl _, ⟨0, fun n _ => by simp [pBuild]⟩, hacc⟩
+    exact ⟨hc, Keeps.refl _, ⟨0, fun n _ => by simp [pBuild]⟩⟩
   | cons it r ih =>
-    intro st ln acc t st' hc habs hacc h hag
-    simp only [List.all_cons, Bool.and_eq_true] at habs
-    obtain ⟨hit, habs⟩ := habs
+    intro st ln acc t st' hc h hag
     cases it with
-    | rfrm up m x y => simp [Item.isAbs] at hit
-    | rstar up m => simp [Item.isAbs] at hit
     | bind x p =>
       simp only [build] at h
-      obtain ⟨h1, hk, ⟨N, hN⟩, ha⟩ := ih _ _ _ _ _ hc habs
-        (abs_append hacc (by intro e he; simp only [List.mem_singleton] at he; subst he; rfl)) h hag
-      exact ⟨h1, hk, ⟨N, fun n hn => by simpa only [pBuild] using hN n hn⟩, ha⟩
+      obtain ⟨h1, hk, ⟨N, hN⟩⟩ := ih _ _ _ _ _ hc h hag
+      exact ⟨h1, hk, ⟨N, fun n hn => by simpa only [pBuild] using hN n hn⟩⟩
     | imp m =>
       simp only [build] at h
-      obtain ⟨h1, hk, ⟨N, hN⟩, ha⟩ := ih _ _ _ _ _ hc habs
-        (abs_append hacc (by intro e he; simp only [List.mem_singleton] at he; subst he; rfl)) h hag
-      exact ⟨h1, hk, ⟨N, fun n hn => by simpa only [pBuild] using hN n hn⟩, ha⟩
+      obtain ⟨h1, hk, ⟨N, hN⟩⟩ := ih _ _ _ _ _ hc h hag
+      exact ⟨h1, hk, ⟨N, fun n hn => by simpa only [pBuild] using hN n hn⟩⟩
     | frm m x y =>
       simp only [build] at h
-      obtain ⟨h1, hk, ⟨N, hN⟩, ha⟩ := ih _ _ _ _ _ hc habs
-        (abs_append hacc (by intro e he; simp only [List.mem_singleton] at he; subst he; rfl)) h hag
-      exact ⟨h1, hk, ⟨N, fun n hn => by simpa only [pBuild] using hN n hn⟩, ha⟩
+      obtain ⟨h1, hk, ⟨N, hN⟩⟩ := ih _ _ _ _ _ hc h hag
+      exact ⟨h1, hk, ⟨N, fun n hn => by simpa only [pBuild] using hN n hn⟩⟩
+    | rfrm up m x y =>
+      simp only [build] at h
+      obtain ⟨h1, hk, ⟨N, hN⟩⟩ := ih _ _ _ _ _ hc h hag
+      exact ⟨h1, hk, ⟨N, fun n hn => by simpa only [pBuild] using hN n hn⟩⟩
     | star m =>
       simp only [build] at h
       rcases hgm : getModule D st m with ⟨b, st1⟩
@@ -347,10 +380,10 @@ theorem build_correct {E D : Disk} {dir : Mod} {scope : St → Mod → Except Er
         dsimp only at h
         have hm1 : Mono st1 st' := build_mono D dir scope hgrow _ _ _ _ _ _ h
         obtain ⟨hc1, hk1, _, hnone⟩ := getModule_correct hc hgm (hag.mono hm1)
-        obtain ⟨h1, hk2, ⟨N, hN⟩, ha⟩ := ih _ _ _ _ _ hc1 habs hacc h hag
+        obtain ⟨h1, hk2, ⟨N, hN⟩⟩ := ih _ _ _ _ _ hc1 h hag
         have hPn : Ev (fun n => P n m) none := hP m none ⟨0, fun n _ => pTable_none (hnone rfl) n⟩
         obtain ⟨M, hM⟩ := hPn
-        refine ⟨h1, hk1.trans hk2, ⟨max N M, fun n hn => ?_⟩, ha⟩
+        refine ⟨h1, hk1.trans hk2, ⟨max N M, fun n hn => ?_⟩⟩
         simp only [pBuild, hM n (Nat.le_trans (Nat.le_max_right _ _) hn)]
         exact hN n (Nat.le_trans (Nat.le_max_left _ _) hn)
       | true =>
@@ -367,24 +400,73 @@ theorem build_correct {E D : Disk} {dir : Mod} {scope : St → Mod → Except Er
             | some t0 => exact build_mono D dir scope hgrow _ _ _ _ _ _ h
           obtain ⟨hc1, hk1, hin, _⟩ := getModule_correct hc hgm (hag.mono (h12.trans h2'))
           obtain ⟨c, hcm⟩ := hin rfl
-          obtain ⟨hc2, hk2, t0, hr, hev, _⟩ := hs _ _ _ _ hc1 (by simp [hcm]) hsc (hag.mono h2')
+          obtain ⟨hc2, hk2, t0, hr, hev⟩ := hs _ _ _ _ hc1 (by simp [hcm]) hsc (hag.mono h2')
           subst hr
           dsimp only at h
-          obtain ⟨h1, hk3, ⟨N, hN⟩, ha⟩ := ih _ _ _ _ _ hc2 habs
-            (abs_append hacc (by intro e he; simp only [List.mem_map] at he; obtain ⟨_, _, rfl⟩ := he; rfl)) h hag
+          obtain ⟨h1, hk3, ⟨N, hN⟩⟩ := ih _ _ _ _ _ hc2 h hag
           obtain ⟨M, hM⟩ := hP m _ hev
-          refine ⟨h1, hk1.trans (hk2.trans hk3), ⟨max N M, fun n hn => ?_⟩, ha⟩
+          refine ⟨h1, hk1.trans (hk2.trans hk3), ⟨max N M, fun n hn => ?_⟩⟩
           simp only [pBuild, hM n (Nat.le_trans (Nat.le_max_right _ _) hn)]
           exact hN n (Nat.le_trans (Nat.le_max_left _ _) hn)
+    | rstar up m =>
+      simp only [build] at h
+      have hn0 := normRef_mono D st dir up m
+      rcases hnr : normRef D st dir up m with ⟨om, st0⟩
+      rw [hnr] at h hn0
+      cases om with
+      | none =>
+        dsimp only at h
+        have hm0 : Mono st0 st' := build_mono D dir scope hgrow _ _ _ _ _ _ h
+        obtain ⟨hc0, hk0, hpn⟩ := normRef_correct hc hnr (hag.mono hm0)
+        obtain ⟨h1, hk2, ⟨N, hN⟩⟩ := ih _ _ _ _ _ hc0 h hag
+        refine ⟨h1, hk0.trans hk2, ⟨N, fun n hn => ?_⟩⟩
+        simp only [pBuild, ← hpn]
+        exact hN n hn
+      | some m' =>
+        dsimp only at h
+        rcases hgm : getModule D st0 m' with ⟨b, st1⟩
+        rw [hgm] at h
+        have hg01 : Mono st0 st1 := by have := getModule_mono D st0 m'; rw [hgm] at this; exact this
+        cases b with
+        | false =>
+          dsimp only at h
+          have hm1 : Mono st1 st' := build_mono D dir scope hgrow _ _ _ _ _ _ h
+          obtain ⟨hc0, hk0, hpn⟩ := normRef_correct hc hnr (hag.mono (hg01.trans hm1))
+          obtain ⟨hc1, hk1, _, hnone⟩ := getModule_correct hc0 hgm (hag.mono hm1)
+          obtain ⟨h1, hk2, ⟨N, hN⟩⟩ := ih _ _ _ _ _ hc1 h hag
+          obtain ⟨M, hM⟩ := hP m' none ⟨0, fun n _ => pTable_none (hnone rfl) n⟩
+          refine ⟨h1, hk0.trans (hk1.trans hk2), ⟨max N M, fun n hn => ?_⟩⟩
+          simp only [pBuild, ← hpn, hM n (Nat.le_trans (Nat.le_max_right _ _) hn)]
+          exact hN n (Nat.le_trans (Nat.le_max_left _ _) hn)
+        | true =>
+          dsimp only at h
+          cases hsc : scope st1 m' with
+          | error e => rw [hsc] at h; cases h
+          | ok p =>
+            obtain ⟨ot, st2⟩ := p
+            rw [hsc] at h
+            have h12 : Mono st1 st2 := hgrow _ _ _ _ hsc
+            have h2' : Mono st2 st' := by
+              cases ot with
+              | none => exact build_mono D dir scope hgrow _ _ _ _ _ _ h
+              | some t0 => exact build_mono D dir scope hgrow _ _ _ _ _ _ h
+            obtain ⟨hc0, hk0, hpn⟩ := normRef_correct hc hnr (hag.mono (hg01.trans (h12.trans h2')))
+            obtain ⟨hc1, hk1, hin, _⟩ := getModule_correct hc0 hgm (hag.mono (h12.trans h2'))
+            obtain ⟨c, hcm⟩ := hin rfl
+            obtain ⟨hc2, hk2, t0, hr, hev⟩ := hs _ _ _ _ hc1 (by simp [hcm]) hsc (hag.mono h2')
+            subst hr
+            dsimp only at h
+            obtain ⟨h1, hk3, ⟨N, hN⟩⟩ := ih _ _ _ _ _ hc2 h hag
+            obtain ⟨M, hM⟩ := hP m' _ hev
+            refine ⟨h1, hk0.trans (hk1.trans (hk2.trans hk3)), ⟨max N M, fun n hn => ?_⟩⟩
+            simp only [pBuild, ← hpn, hM n (Nat.le_trans (Nat.le_max_right _ _) hn)]
+            exact hN n (Nat.le_trans (Nat.le_max_left _ _) hn)
 
 theorem ev_shift {α : Type} {f : Nat → Except Err α} {a : α} (h : Ev f a) : Ev (fun n => f (n + 1)) a := by
   obtain ⟨N, hN⟩ := h
   exact ⟨N, fun n hn => hN (n + 1) (Nat.le_succ_of_le hn)⟩
 
-/-- every source on the disk has absolute imports only -/
-def AbsDisk (D : Disk) : Prop := ∀ m f, get D m = some f → absSrc f.src = true
-
-theorem scopeOf_correct (E D : Disk) (hD : AbsDisk D) : ∀ n, ScopeOK E D (scopeOf D n) := by
+theorem scopeOf_correct (E D : Disk) : ∀ n, ScopeOK E D (scopeOf D n) := by
   intro n
   induction n with
   | zero => intro st k r st' _ _ h; simp [scopeOf] at h
@@ -401,13 +483,12 @@ theorem scopeOf_correct (E D : Disk) (hD : AbsDisk D) : ∀ n, ScopeOK E D (scop
         rw [ht] at h; simp only [Except.ok.injEq, Prod.mk.injEq] at h
         obtain ⟨h1, h2⟩ := h
         subst h1; subst h2
-        exact ⟨hc, Keeps.refl _, t, rfl, hc.table k c t hg ht, hc.tabAbs k c t hg ht⟩
+        exact ⟨hc, Keeps.refl _, t, rfl, hc.table k c t hg ht⟩
       | none =>
         rw [ht] at h; dsimp only at h
         obtain ⟨f, hf, _⟩ := hc.valid k c hg
-        have hE := hag k (hmono k (Or.inl (by simp [hg])))
+        have hE := hag.files k (hmono.foot k (Or.inl (by simp [hg])))
         rw [hf] at hE
-        have hfD : get D k = some f := hE.symm
         rw [← hE] at h; dsimp only at h
         cases hb : build D (dirOf (some k)) (scopeOf D n) st f.src 1 [] with
         | error e => rw [hb] at h; cases h
@@ -416,18 +497,18 @@ theorem scopeOf_correct (E D : Disk) (hD : AbsDisk D) : ∀ n, ScopeOK E D (scop
           rw [hb] at h; simp only [Except.ok.injEq, Prod.mk.injEq] at h
           obtain ⟨h1, h2⟩ := h
           subst h1; subst h2
-          obtain ⟨hc1, hk1, ⟨N, hN⟩, ha⟩ := build_correct (scopeOf_mono D n) ih (pTable E) (fun _ _ h => h)
-            _ _ _ _ _ _ hc (hD k f hfD) (by simp) hb (hag.mono (updCached_mono _ _ _))
+          obtain ⟨hc1, hk1, ⟨N, hN⟩⟩ := build_correct (scopeOf_mono D n) ih (pTable E) (fun _ _ h => h)
+            _ _ _ _ _ _ hc hb (hag.mono (updCached_mono _ _ _))
           have hev : Ev (fun n => pTable E n k) (some t) :=
             ⟨N + 1, fun n hn => by
               obtain ⟨n', rfl⟩ : ∃ n', n = n' + 1 := ⟨n - 1, by omega⟩
               simp only [pTable, hf, hN n' (by omega)]⟩
           refine ⟨correct_updCached hc1 (fun c0 _ => ⟨rfl, ?_, fun _ _ _ _ _ h => Or.inl h, fun _ _ h => Or.inl h,
-              fun _ _ _ h => Or.inl h⟩),
-            hk1.trans (keeps_updCached _ _ _), t, rfl, hev, ha⟩
+              fun _ _ _ _ _ _ h => Or.inl h⟩),
+            hk1.trans (keeps_updCached _ _ _), t, rfl, hev⟩
           intro t' ht'
           simp only [Option.some.injEq] at ht'
           subst ht'
-          exact Or.inr ⟨hev, ha⟩
+          exact Or.inr hev
 
 end SuppModel.Proj
